@@ -161,6 +161,54 @@ def cache_facts():
     return cached, clears
 
 
+# ---------- the flags classification searches with
+_RE_FUNCS = {"search", "match", "fullmatch", "compile", "finditer", "findall"}
+
+
+def _flag_names(e, where):
+    """names of the re flags in an expression like `re.M | re.I` (long names normalised)"""
+    norm = {"MULTILINE": "M", "IGNORECASE": "I", "DOTALL": "S", "VERBOSE": "X", "ASCII": "A", "UNICODE": "U", "LOCALE": "L"}
+    if isinstance(e, ast.BinOp) and isinstance(e.op, ast.BitOr):
+        return _flag_names(e.left, where) | _flag_names(e.right, where)
+    if isinstance(e, ast.Attribute) and isinstance(e.value, ast.Name) and e.value.id == "re":
+        return {norm.get(e.attr, e.attr)}
+    if isinstance(e, ast.Constant) and e.value == 0:
+        return set()
+    raise TranslateError(f"{where}: regex flags are not a literal combination of re.X constants: {ast.dump(e)}")
+
+
+def classify_flags():
+    """the set of re flags with which `_determine_current_priv` — and every method of the class it calls, transitively —
+    searches a privilege pattern in the prompt.  Every regex call found must use the same flags."""
+    rel = "scrapli/driver/network/base_driver.py"
+    cls = next(n for n in _parse(rel).body if isinstance(n, ast.ClassDef) and n.name == "BaseNetworkDriver")
+    methods = {n.name: n for n in cls.body if isinstance(n, (ast.FunctionDef, ast.AsyncFunctionDef))}
+    seen, todo, found = set(), ["_determine_current_priv"], []
+    while todo:
+        name = todo.pop()
+        if name in seen or name not in methods:
+            continue
+        seen.add(name)
+        for n in ast.walk(methods[name]):
+            if not isinstance(n, ast.Call):
+                continue
+            f = n.func
+            if isinstance(f, ast.Attribute) and isinstance(f.value, ast.Name) and f.value.id == "re" and f.attr in _RE_FUNCS:
+                kw = {k.arg: k.value for k in n.keywords}
+                pos = {"compile": 1}.get(f.attr, 2)
+                fl = kw.get("flags", n.args[pos] if len(n.args) > pos else None)
+                found.append((f"{rel}:{name}:{n.lineno}", frozenset(_flag_names(fl, f"{rel}:{name}") if fl is not None else ())))
+            elif isinstance(f, ast.Attribute) and isinstance(f.value, ast.Name) and f.value.id in ("self", "cls") and f.attr in methods:
+                todo.append(f.attr)
+            elif isinstance(f, ast.Attribute) and isinstance(f.value, ast.Attribute) and _is_self_attr(f.value, f.value.attr) and f.value.attr in methods:
+                todo.append(f.value.attr)      # self.helper(...).search(...)
+    if not found:
+        raise TranslateError(f"{rel}: no regex call found in _determine_current_priv or the methods it calls")
+    if len({fl for _, fl in found}) != 1:
+        raise TranslateError(f"{rel}: classification uses different regex flags in different places: {[(w, sorted(f)) for w, f in found]}")
+    return sorted(found[0][1])
+
+
 # ---------- drivers, tables
 def _drivers(platform):
     import scrapli.driver.core as C
@@ -450,6 +498,8 @@ def generate():
     a += f"/-- DUMMY_PRIV_LEVEL.name -/\ndef dummyName : String := {lstr(c['dummy'])}\n"
     a += f"/-- acquire_priv gives up when privilege_change_count > len(privilege_levels) * loopFactor -/\ndef loopFactor : Nat := {c['factor']}\n"
     a += f"/-- the level `_pre_send_configs` resolves an empty privilege_level to -/\ndef configLevel : String := {lstr(c['configLevel'])}\n"
+    flags = classify_flags()
+    a += f"/-- the re flags `_determine_current_priv` searches privilege patterns with (and every helper it calls) -/\ndef classifyFlags : List String := {lstrs(flags)}\n"
     cached, clears = cache_facts()
     a += f"/-- `_determine_current_priv` is memoised (lru_cache) -/\ndef classifyMemoised : Bool := {lbool(cached)}\n"
     a += ("/-- every path through `update_privilege_levels` (run after a session level is added) reaches "
